@@ -26,6 +26,7 @@ const (
 	OutError
 	OutSilentDrop // no reply; the connection is reset later (a held peer action)
 	OutDropNow    // the connection is reset when the request arrives
+	OutHostile    // a malformed / unexpected reply (C17); Hostile selects the behaviour
 )
 
 // Outcome is what a fake backend does with one attempt of a tokenised request.
@@ -33,6 +34,7 @@ type Outcome struct {
 	Kind OutcomeKind
 	Err  message.Error // for OutError
 	Name string        // short label used in traces and oracles
+	Hostile int
 }
 
 func (o Outcome) String() string { return o.Name }
@@ -91,6 +93,8 @@ type Node struct {
 	ConnsSeen    int
 	DialTimes    []time.Duration
 	Joined       bool // added to the cluster after the proxy started
+	EvilHeartbeat int // number of heartbeats to answer maliciously
+	NeverHostile  bool // this node answers correctly whatever the script says (C17's healthy node)
 }
 
 type BackendConn struct {
@@ -212,6 +216,13 @@ func (c *BackendConn) handle(raw []byte) {
 		// for the property that owns the frame (C03/C12); record and drop the connection.
 		w.Logf("backend %s: undecodable frame from proxy: %v (%x...)", c, err, raw[:min(len(raw), 24)])
 		w.BadFrames = append(w.BadFrames, BadFrame{Conn: c, Raw: raw, Err: err.Error()})
+		if len(raw) >= hdrLen && int(raw[0]&0x7f) == int(c.Version) && raw[0]&0x80 == 0 && len(raw) < 1<<20 {
+			// as a Cassandra node does for a request whose body does not parse: a protocol error on
+			// that stream, the connection stays open
+			stream := int16(raw[2])<<8 | int16(raw[3])
+			c.replyNow(stream, &message.ProtocolError{ErrorMessage: "cannot parse request body"})
+			return
+		}
 		c.Reset("undecodable frame")
 		return
 	}
@@ -228,6 +239,25 @@ func (c *BackendConn) handle(raw []byte) {
 	case *message.Options:
 		w.Stat("backend.options")
 		c.Version = pickVersion(c.Version, hdr.Version)
+		if n.EvilHeartbeat > 0 && c.Started {
+			// a hostile node answers a heartbeat with something else
+			n.EvilHeartbeat--
+			w.Stat("fault.hostile-backend.heartbeat")
+			id := w.HostileUnpreparedID
+			if id == nil {
+				id = []byte("0123456789abcdef")
+			}
+			switch n.EvilHeartbeat % 3 {
+			case 0:
+				c.replyNow(stream, &message.Unprepared{ErrorMessage: "unprepared", Id: id})
+			case 1:
+				c.replyNow(stream, tokenRows("tok0x", c.Version))
+			case 2:
+				c.replyNow(stream, &message.Supported{Options: map[string][]string{}})
+				c.replyNow(stream, &message.Supported{Options: map[string][]string{}})
+			}
+			return
+		}
 		c.replyNow(stream, &message.Supported{Options: map[string][]string{"CQL_VERSION": {"3.4.5"}, "COMPRESSION": {"lz4", "snappy"}}})
 	case *message.Startup:
 		if !n.supports(hdr.Version) {
@@ -314,6 +344,10 @@ func (c *BackendConn) handleQuery(raw []byte, frm *frame.Frame, msg *message.Que
 		if n.Keyspaces != nil && !n.Keyspaces[ks] {
 			w.Stat("backend.use_unknown")
 			c.replyNow(stream, &message.Invalid{ErrorMessage: fmt.Sprintf("Keyspace '%s' does not exist", ks)})
+			return
+		}
+		if ks == "" {
+			c.replyNow(stream, &message.SyntaxError{ErrorMessage: "line 1:4 no viable alternative at input '<EOF>'"})
 			return
 		}
 		c.Keyspace = ks
@@ -428,6 +462,78 @@ func (c *BackendConn) applyOutcome(out Outcome, stream int16, att *Attempt, tok 
 		w.Stat("backend.drop_now")
 		att.Dropped = true
 		c.Reset("scripted drop for " + tok)
+	case OutHostile:
+		if c.Node.NeverHostile {
+			att.Outcome = "ok"
+			c.reply(stream, tokenRows(tok, c.Version), att, "ROWS "+tok)
+			return
+		}
+		c.hostile(out.Hostile, stream, att, tok)
+	}
+}
+
+// freeStream returns a stream id on which the proxy has nothing outstanding at this connection.
+func (c *BackendConn) freeStream() int16 {
+	for s := int16(2047); s >= 0; s-- {
+		if !c.Outstanding[s] {
+			return s
+		}
+	}
+	return 2047
+}
+
+var HostileKinds = []string{"wrong-stream", "request-opcode-as-response", "short-error-body", "garbage-bytes", "reply-twice",
+	"huge-length-then-silence", "unprepared-for-cached-id", "unknown-result-kind", "garbage-event", "direction-bit-missing",
+	"truncated-rows", "error-with-bad-code", "zero-length-result"}
+
+// hostile answers a request the way no healthy Cassandra node would (C17).
+func (c *BackendConn) hostile(kind int, stream int16, att *Attempt, tok string) {
+	w := c.Node.w
+	name := HostileKinds[kind%len(HostileKinds)]
+	w.Stat("fault.hostile-backend." + name)
+	w.Logf("backend %s: HOSTILE reply %s for %s", c, name, tok)
+	att.Outcome = "hostile:" + name
+	v := byte(c.Version) | 0x80
+	hdr := func(stream int16, op byte, n int) []byte {
+		return []byte{v, 0, byte(stream >> 8), byte(stream), op, byte(n >> 24), byte(n >> 16), byte(n >> 8), byte(n)}
+	}
+	ok := encodeFrame(c.Compression, frame.NewFrame(c.Version, stream, tokenRows(tok, c.Version)))
+	switch name {
+	case "wrong-stream":
+		c.Link.PeerWrite(encodeFrame(c.Compression, frame.NewFrame(c.Version, c.freeStream(), tokenRows(tok, c.Version))))
+	case "request-opcode-as-response":
+		c.Link.PeerWrite(hdr(stream, 0x07, 0))
+	case "short-error-body":
+		c.Link.PeerWrite(append(hdr(stream, 0x00, 2), 0x25, 0x00))
+	case "garbage-bytes":
+		c.Link.PeerWrite([]byte("\x00\xff this is not a frame \x01\x02\x03\x04\x05\x06\x07\x08"))
+	case "reply-twice":
+		c.Link.PeerWrite(ok)
+		c.Link.PeerWrite(ok)
+		att.Replied = true
+		att.ReplyRaw = ok
+	case "huge-length-then-silence":
+		c.Link.PeerWrite(hdr(stream, 0x08, 16<<20))
+	case "unprepared-for-cached-id":
+		id := w.HostileUnpreparedID
+		if id == nil {
+			id = []byte("0123456789abcdef")
+		}
+		c.Link.PeerWrite(encodeFrame(c.Compression, frame.NewFrame(c.Version, stream, &message.Unprepared{ErrorMessage: "unprepared", Id: id})))
+	case "unknown-result-kind":
+		c.Link.PeerWrite(append(hdr(stream, 0x08, 4), 0, 0, 0, 0x99))
+	case "garbage-event":
+		c.Link.PeerWrite(append(hdr(-1, 0x0C, 6), 0, 4, 'J', 'U', 'N', 'K'))
+	case "direction-bit-missing":
+		b := append([]byte(nil), ok...)
+		b[0] &= 0x7f
+		c.Link.PeerWrite(b)
+	case "truncated-rows":
+		c.Link.PeerWrite(append(hdr(stream, 0x08, 9), 0, 0, 0, 2, 0, 0, 0, 1, 0))
+	case "error-with-bad-code":
+		c.Link.PeerWrite(append(hdr(stream, 0x00, 10), 0x7f, 0xff, 0xff, 0xff, 0, 4, 'o', 'o', 'p', 's'))
+	case "zero-length-result":
+		c.Link.PeerWrite(hdr(stream, 0x08, 0))
 	}
 }
 
